@@ -180,6 +180,8 @@ class GitConfigModel(Model):
             def set_(it_, self_ref, a, k):
                 cell = it_.path.heap[self_ref.addr]
                 cell.fields["data"] = cell.fields["data"].put(_gkey(a[0], a[1]), a[2])
+                if _gkey(a[0], a[1]).t.as_string().startswith("xandikos/"):
+                    cell.fields["has_xandikos"] = VBool(True)   # set() creates the section
                 return NONE
             return self.method(ref, set_, name)
         if name == "has_section":
@@ -187,8 +189,57 @@ class GitConfigModel(Model):
                 return VBool(F(it_, self_ref)["has_xandikos"].t)
             return self.method(ref, has_section, name)
         if name == "write_to_file":
-            return self.method(ref, lambda it_, r, a, k: NONE, name)
+            def write_to_file(it_, self_ref, a, k):
+                # serialising: the bytes written are some text whose parse is exactly this
+                # configuration (dulwich write/read round trip: ASSUMED, bounded conformance)
+                tgt = a[0]
+                if not (isinstance(tgt, VRef) and it_.heap()[tgt.addr].native is BYTESIO):
+                    raise Unsupported("ConfigFile.write_to_file to something other than an in-memory buffer")
+                f = F(it_, self_ref)
+                r = it_.path.const("gitconfig.rendered", STR)
+                it_.path.assume(GCP_DOM(r) == f["data"].dom)
+                it_.path.assume(GCP_VAL(r) == f["data"].val.t)
+                it_.path.assume(GCP_HAS(r) == f["has_xandikos"].t)
+                it_.path.dropped.add("dulwich ConfigFile write_to_file / from_file round trip (assumed: parsing what was written gives the same options)")
+                cell = it_.path.heap[tgt.addr]
+                cell.fields["data"] = VStr(z3.Concat(cell.fields["data"].t, r), True)
+                return NONE
+            return self.method(ref, write_to_file, name)
         raise Unsupported(f"ConfigFile.{name}")
+
+
+GCP_DOM = z3.Function("gitconfig_parse.dom", STR, z3.ArraySort(STR, BOOL))
+GCP_VAL = z3.Function("gitconfig_parse.val", STR, z3.ArraySort(STR, STR))
+GCP_HAS = z3.Function("gitconfig_parse.has_xandikos", STR, BOOL)
+
+
+def parsed_gitconfig(text_t, like):
+    """The options a repository's config file with these bytes holds."""
+    return VMap(like.key, GCP_DOM(text_t), VStr(GCP_VAL(text_t), True)), VBool(GCP_HAS(text_t))
+
+
+class BytesIOModel(Model):
+    cls_name = "io.BytesIO"
+
+    def getattr(self, it, ref, name):
+        if name == "write":
+            def write(it_, self_ref, a, k):
+                cell = it_.path.heap[self_ref.addr]
+                cell.fields["data"] = VStr(z3.Concat(cell.fields["data"].t, a[0].t), True)
+                return VInt(z3.Length(a[0].t))
+            return self.method(ref, write, name)
+        if name == "getvalue":
+            return self.method(ref, lambda it_, r, a, k: F(it_, r)["data"], name)
+        raise Unsupported(f"BytesIO.{name}")
+
+
+BYTESIO = BytesIOModel()
+
+
+def bytesio_new(it, a, k):
+    if a or k:
+        raise Unsupported("BytesIO with initial contents")
+    return new(it, BYTESIO, {"data": VStr(S(""), True)})
 
 
 def _gkey(section, option):
@@ -208,6 +259,7 @@ GITCONFIG = GitConfigModel()
 def install(reg):
     E = reg.externals
     E["configparser.ConfigParser"] = VNative(cp_construct, "configparser.ConfigParser")
+    E["io.BytesIO"] = VNative(bytesio_new, "io.BytesIO")
     E["configparser.DuplicateSectionError"] = VExtClass("configparser.DuplicateSectionError")
 
     class CPFactory:
@@ -216,9 +268,18 @@ def install(reg):
             return fresh_cp(it, name)
 
     reg.model_classes["configparser.ConfigParser"] = CPFactory
+
+    class GCFactory:
+        @staticmethod
+        def fresh(it, name):
+            return new(it, GITCONFIG, {"data": vals.fresh("dict[bytes,bytes]", it.path.name(name + ".data")),
+                                        "has_xandikos": VBool(it.path.const(name + ".has_xandikos", BOOL))})
+
+    reg.model_classes["dulwich.config.ConfigFile"] = GCFactory
     SN = reg.spec_natives
     SN["cp_raw"] = lambda it, a, k: (lambda f: vals.ite(f["data"].has(_key(a[1], a[2])), f["data"].get(_key(a[1], a[2])), NONE))(F(it, a[0]))
     SN["cp_data"] = lambda it, a, k: F(it, a[0])["data"]
     SN["cp_key"] = lambda it, a, k: _key(a[0], a[1])
     SN["cfg_parse"] = lambda it, a, k: parsed_config(a[0].t)
+    SN["empty"] = lambda it, a, k: it.empty_of_kind(vals.concrete_str(a[0]))
     SN["cp_interpolating"] = lambda it, a, k: F(it, a[0])["interp"]
